@@ -560,6 +560,27 @@ theorem c01_reject_status (cfg : ConnCfg) (bs : Bytes) (s : ConnSt) (hs : s.Live
     st = 400 ∨ st = 411 ∨ st = 413 ∨ st = 431 ∨ st = 501 :=
   (h1Feed_rej cfg bs s hs).1 st h
 
+/-- **A trailer section that outgrows max-request-field-size closes the connection.**  When the bytes
+    after the last-chunk line reach the limit without their terminating empty line, the request is
+    answered with the body decoded so far and the connection is closed: whatever follows (the rest of
+    the trailer section, crafted or not to look like a request) produces no event. -/
+theorem c01_trailer_overflow_closes (cfg : ConnCfg) (count : Nat) (r : PReq) (t : Target) (h : Handler)
+    (ck : CkSt) (acc : Bytes) (off : Nat) (b : UInt8) (next : Bytes)
+    (hmode : ck.mode = .trailer acc off false) (hb : b ≠ 0)
+    (hnoend : endsCrlfCrlf ((acc ++ [b]).drop off) = false) (hlen : acc.length + 1 ≥ cfg.maxField) :
+    h1Feed cfg { phase := .bodyCk r t h ck, count := count } (b :: next)
+      = ({ phase := .closed, count := count },
+         [.request h.status r.method r.target t.path ck.out (r.bodyLen == -1), .close]) := by
+  obtain ⟨mode, out, ka, after⟩ := ck
+  simp only at hmode
+  subst hmode
+  rw [h1Feed_cons]
+  have hstep : ckStep (ckCfgOf cfg) { mode := .trailer acc off false, out := out, ka := ka, after := after } b
+      = { mode := .done, out := out, ka := false, after := after } := by
+    have hl : (acc ++ [b]).length ≥ cfg.maxField := by simp; omega
+    simp [ckStep, hb, hnoend, ckCfgOf, hl]
+  simp [h1Step, hstep, respond, keepAliveAfter, h1Feed_closed]
+
 /-- `close` is final: no event of any kind follows it -/
 theorem c01_close_final (cfg : ConnCfg) (bs : Bytes) : ∀ (s : ConnSt) (pre post : List Event),
     (h1Feed cfg s bs).2 = pre ++ Event.close :: post →
